@@ -9,9 +9,11 @@
  *   - `platform_timer_start` is wrapped: the real 2 s timer thread is never started (deterministic ticks);
  *   - verif_backend_cycle_hook (H1) leaves the loop when the script is exhausted.
  *
- * case lines:   mode net|console        meh ok|raise|recurse        script <oid> <kind> <ops>
+ * case lines:   preload ok,err,..|epilog-err (preload_objects() with scripted master epilog()/preload())
+ *               mode net|console        meh ok|raise|recurse        script <oid> <kind> <ops>
  *               clone <oid> /c09/obj    vapply <oid> do_ops <ops>   step <action>...     run
- * actions:      tick[:<dt>] conn:<c> send:<c>:<text> close:<c> cin:<text> idle       ('/' in text = newline)
+ * actions:      tick[:<dt>] conn:<c> send:<c>:<text> close:<c> reset:<c> cin:<text> idle   ('/' in text = newline)
+ *               several actions in one step = several events reported by ONE poll, delivered in the order written
  */
 #include "vh.h"
 #include <unistd.h>
@@ -27,6 +29,7 @@
 #include "src/main.h"
 #include "port/timer.h"
 #include "async/async_runtime.h"
+#include "call_out.h"
 
 extern int (*verif_backend_cycle_hook) (void);
 extern int heart_beat_flag;
@@ -48,7 +51,7 @@ timer_error_t __wrap_platform_timer_start (platform_timer_t * timer, unsigned lo
 
 /* ---- script ------------------------------------------------------------ */
 #define MAXSTEP 512
-#define MAXCLI 32
+#define MAXCLI 64
 static char *steps[MAXSTEP];
 static int nsteps = 0, step_idx = 0, cycle_no = 0, trail = 0;
 static int console = 0;
@@ -174,6 +177,22 @@ static void do_action (char *a, int *tick, long *dt)
       cli[k].closed_by_script = 1;
       wait_readable (dfd);
     }
+  else if (!strncmp (a, "reset:c", 7))
+    {
+      /* abortive close: SO_LINGER 0 makes close() send RST; the driver's socket reports EPOLLERR | EPOLLHUP */
+      int k = atoi (a + 7);
+      int dfd;
+      struct linger lg = { 1, 0 };
+      if (k < 0 || k >= MAXCLI || !cli[k].used || cli[k].fd < 0)
+        return;
+      dfd = driver_fd (k);
+      cli_drain (k);
+      setsockopt (cli[k].fd, SOL_SOCKET, SO_LINGER, &lg, sizeof lg);
+      close (cli[k].fd);
+      cli[k].fd = -1;
+      cli[k].closed_by_script = 1;
+      wait_readable (dfd);
+    }
   else if (!strncmp (a, "cin:", 4))
     {
       if (cons_w >= 0)
@@ -186,9 +205,76 @@ static void do_action (char *a, int *tick, long *dt)
 }
 
 int __real_epoll_wait (int epfd, struct epoll_event *ev, int max, int tmo);
+
+/* ---- deterministic order of the events of one poll ------------------------
+ * The kernel reports ready descriptors in the order they became ready, which the script cannot control.  The
+ * wrapper therefore sorts the events the real epoll_wait() returned into the order of the step's actions:
+ *   conn:   -> the listening port            send:/close: -> that client's connection record (epoll data.ptr)
+ *   cin:    -> the doorbell (eventfd: console completions), else the tick's wake-up rings the same doorbell
+ * Events of no action of this step (level-triggered left-overs) keep their relative order after the scripted ones. */
+#define MAXRANK 64
+static struct { void *ptr; int is_doorbell; } rank_key[MAXRANK];
+static int nrank = 0;
+
+static void *driver_ip (int k)
+{
+  if (!all_users || k < 0 || k >= MAXCLI || !cli[k].used)
+    return 0;
+  for (int i = 1; i < max_users; i++)
+    if (all_users[i] && ntohs (all_users[i]->addr.sin_port) == cli[k].lport && all_users[i]->connection_type != CONSOLE_USER)
+      return all_users[i];
+  return 0;
+}
+
+static void note_rank (const char *a)
+{
+  if (nrank >= MAXRANK)
+    return;
+  rank_key[nrank].ptr = 0;
+  rank_key[nrank].is_doorbell = 0;
+  if (!strncmp (a, "conn:c", 6))
+    rank_key[nrank].ptr = &external_port[0];
+  else if (!strncmp (a, "send:c", 6))
+    rank_key[nrank].ptr = driver_ip (atoi (a + 6));
+  else if (!strncmp (a, "close:c", 7) || !strncmp (a, "reset:c", 7))
+    rank_key[nrank].ptr = driver_ip (atoi (a + 7));
+  else if (!strncmp (a, "cin:", 4))
+    rank_key[nrank].is_doorbell = 1;
+  nrank++;
+}
+
+static int rank_of (struct epoll_event *e)
+{
+  int bell = async_runtime_get_event_loop_handle (g_runtime);
+  int tick_rank = MAXRANK;
+  for (int i = 0; i < nrank; i++)
+    {
+      if (rank_key[i].is_doorbell && e->data.fd == bell)
+        return i;
+      if (rank_key[i].ptr && e->data.ptr == rank_key[i].ptr)
+        return i;
+    }
+  return tick_rank;
+}
+
+static void sort_events (struct epoll_event *ev, int n)
+{
+  for (int i = 1; i < n; i++)
+    {
+      struct epoll_event x = ev[i];
+      int r = rank_of (&x), j = i - 1;
+      while (j >= 0 && rank_of (&ev[j]) > r)
+        {
+          ev[j + 1] = ev[j];
+          j--;
+        }
+      ev[j + 1] = x;
+    }
+}
+
 int __wrap_epoll_wait (int epfd, struct epoll_event *ev, int max, int tmo)
 {
-  int tick = 0;
+  int tick = 0, n;
   long dt = 0;
   (void) tmo;
   cycle_no++;
@@ -197,9 +283,22 @@ int __wrap_epoll_wait (int epfd, struct epoll_event *ev, int max, int tmo)
   if (step_idx < nsteps)
     {
       char copy[4096], *tok[32];
+      int io = 0;
       snprintf (copy, sizeof copy, "%s", steps[step_idx++]);
-      int n = vh_split (copy, tok, 32);
-      for (int i = 0; i < n; i++)
+      int nt = vh_split (copy, tok, 32);
+      /* the connection records the step's actions refer to are looked up BEFORE anything happens: these are the
+       * context pointers the kernel hands back.  A step without I/O actions keeps the previous order: events a
+       * longjmp out of process_io() left unprocessed are reported again by this poll. */
+      for (int i = 0; i < nt; i++)
+        if (strncmp (tok[i], "tick", 4) && strcmp (tok[i], "idle"))
+          io = 1;
+      if (io)
+        {
+          nrank = 0;
+          for (int i = 0; i < nt; i++)
+            note_rank (tok[i]);
+        }
+      for (int i = 0; i < nt; i++)
         do_action (tok[i], &tick, &dt);
     }
   if (tick)
@@ -209,7 +308,10 @@ int __wrap_epoll_wait (int epfd, struct epoll_event *ev, int max, int tmo)
       heart_beat_flag = 1;
       async_runtime_wakeup (g_runtime);
     }
-  return __real_epoll_wait (epfd, ev, max, 0);
+  n = __real_epoll_wait (epfd, ev, max, 0);
+  if (n > 1)
+    sort_events (ev, n);
+  return n;
 }
 
 static int cycle_hook (void)
@@ -314,6 +416,11 @@ static void run_backend (void)
     if (reg && vh_apply_str (reg, "hb_report", 0, 0, res, sizeof res) == 0)
       vh_out ("hbs %s", res);
   }
+  /* a pending call_out holds a reference on the command_giver of the task that scheduled it - and that can be the
+   * master object (new_interactive() leaves command_giver = master_ob behind, a later net_dead() inherits it):
+   * cancel what is still pending, so that the counts below see connection set-up only */
+  for (object_t * ob = obj_list; ob; ob = ob->next_all)
+    remove_all_call_out (ob);
   /* reference counts of the two vital objects relative to the start of backend(): connection set-up takes an
    * extra reference on master_ob and must give it back on every path (accepted, rejected, failing connect()) */
   vh_out ("refs %d %d", master_ob->ref - mref0, (simul_efun_ob ? simul_efun_ob->ref : 0) - sref0);
@@ -383,6 +490,16 @@ static int c09_cmd (char *line)
       object_t *reg = vh_obj ("reg");
       if (reg)
         vh_apply_str (reg, "set_meh", 1, a, 0, 0);
+      return 1;
+    }
+  if (n == 2 && !strcmp (tok[0], "preload"))
+    {
+      /* main() calls preload_objects() before backend(): epilog() names the files, preload() loads each */
+      char *a[2] = { "preload", tok[1] };
+      object_t *reg = vh_obj ("reg");
+      if (reg)
+        vh_apply_str (reg, "set_script", 2, a, 0, 0);
+      preload_objects (0);
       return 1;
     }
   if (n == 4 && !strcmp (tok[0], "script"))
